@@ -1,5 +1,7 @@
 """C02 - fail-stop: a failing command halts the run with its exit status."""
 import json
+import os
+import subprocess
 import re
 
 from . import common as C
@@ -180,10 +182,38 @@ def run(report):
             samples.append({"justfile": R.print_prog(c["prog"], c["cfg"]), "argv": R.cmdline(c["cfg"], c["invs"]),
                             "plan": c["status"], "answers": c["answers"][:4], "events": r["events"], "exit": r["exit"]})
     stats["programs"] = nprog
+    # which typed answers confirm: a [confirm] recipe between two others, one answer text per run, against
+    # Just.Run.confirmAccepts and the rule `y` / `yes` in any case with surrounding blanks
+    TEXTS = R.ACCEPT_TEXTS + R.DECLINE_TEXTS + ["Y E S", "yes\r", "  YES  ", "y.", "ok", "sure", "0", "-y", "yy", "es", "\u0443", "y\u00e9s", "NO", "No", " n "]
+    cjust = 'set shell := ["%s", "-c"]\nfirst:\n  [first]\n[confirm]\nmid: first && after\n  [mid]\nafter:\n  [after]\nlast:\n  [last]\n' % C.VSH
+
+    def run_confirm(text):
+        with C.scratch("c02c") as d:
+            open(os.path.join(d, "justfile"), "w").write(cjust)
+            logp = os.path.join(d, "vsh.log")
+            env = dict(C.BASE_ENV)
+            env.update({"HOME": d, "TMPDIR": d, "VSH_LOG": logp})
+            p = subprocess.run([C.JUST, "mid", "last"], cwd=d, env=env, input=(text + "\n").encode(), stdout=subprocess.PIPE, stderr=subprocess.PIPE)
+            return p.returncode, [e["argv"][2] for e in C.read_vsh_log(logp)]
+
+    cres = C.pmap(run_confirm, TEXTS)
+    cmod = drv.pbatch([{"op": "confirm", "line": t + "\n"} for t in TEXTS])
+    stats["confirm_answer_texts"] = len(TEXTS)
+    for t, (rc, ran), m in zip(TEXTS, cres, cmod):
+        yes = t.strip().lower() in ("y", "yes")
+        want = (0, ["[first]", "[mid]", "[after]", "[last]"]) if yes else (1, [])
+        if (rc, ran) != want:
+            report.failure("c02-confirm-answer", "answer %r to a [confirm] prompt: exit %d, ran %s; only `y` and `yes` confirm, a declined recipe runs nothing and exits 1" % (t, rc, ran),
+                           {"justfile": cjust, "argv": ["mid", "last"], "stdin": t + "\n", "observed": {"exit": rc, "ran": ran}, "expected": {"exit": want[0], "ran": want[1]}})
+            break
+        if m["accepts"] != yes:
+            report.failure("c02-model-confirm", "Just.Run.confirmAccepts disagrees on the answer %r" % t,
+                           {"correspondence": "C02 confirmation answer vs Just.Run.confirmAccepts", "answer": t, "model": m}, no_input=True)
+            break
     report.coverage.update({
         "evaluations": len(cases) + len(ok_cases),
         "distinct_nontrivial": len(distinct),
-        "rule": "fault enumeration: every status 1..255 and 10 signals on a fixed placement with/without `-` (exhaustive); for random graphs every single failing command (line, script, backtick in assignment/default/interpolation/dependency argument) with a status from a fixed set, plus random multi-fault plans and confirmation answer sequences; distinct = distinct (trace, exit) observed",
+        "rule": "fault enumeration: every status 1..255 and 10 signals on a fixed placement with/without `-` (exhaustive); for random graphs every single failing command (line, script, backtick in assignment/default/interpolation/dependency argument) with a status from a fixed set, plus random multi-fault plans and confirmation answer sequences (typed as `y`, `yes`, `Yes  `, … / `n`, ``, `ye`, `yes please`, …), and 40 answer texts one by one; distinct = distinct (trace, exit) observed",
         "samples": samples,
         "traces_validated_against_impl": len(cases) + len(ok_cases),
         "stats": stats,
